@@ -69,8 +69,17 @@ func newMemBackend(ac bool) *memBackend {
 	return &memBackend{ac: ac, blobs: map[string][]byte{}, maxSize: 1 << 20}
 }
 
+// keyOf is the backend's key of a digest: digest function, hash and size (SHA-256, the
+// function of almost all cases, is left implicit; other functions are prefixed as ff<enum>).
 func keyOf(d digest.Digest) string {
-	return fmt.Sprintf("%s-%d", d.GetHashString(), d.GetSizeBytes())
+	return fmt.Sprintf("%s-%d", qualHash(int(d.GetDigestFunction().GetEnumValue()), d.GetHashString()), d.GetSizeBytes())
+}
+
+func qualHash(enum int, hash string) string {
+	if enum == int(remoteexecution.DigestFunction_SHA256) {
+		return hash
+	}
+	return fmt.Sprintf("ff%02x%s", enum, hash)
 }
 
 func (b *memBackend) Get(ctx context.Context, d digest.Digest) buffer.Buffer {
